@@ -83,7 +83,7 @@ Definition astutil_tbl : list (string * list apart) := [
   ("KeyValueExpr", [AOne "Key" "Key"; AOne "Value" "Value"]);
   ("ArrayType", [AOne "Len" "Len"; AOne "Elt" "Elt"]);
   ("StructType", [AOne "Fields" "Fields"]);
-  ("FuncType", [AOne "TypeParams" "TypeParams"; AOne "Params" "Params"; AOne "Results" "Results"]);
+  ("FuncType", [AOneG "TypeParams" "TypeParams"; AOne "Params" "Params"; AOne "Results" "Results"]);
   ("InterfaceType", [AOne "Methods" "Methods"]);
   ("MapType", [AOne "Key" "Key"; AOne "Value" "Value"]);
   ("ChanType", [AOne "Value" "Value"]);
@@ -110,7 +110,7 @@ Definition astutil_tbl : list (string * list apart) := [
   ("RangeStmt", [AOne "Key" "Key"; AOne "Value" "Value"; AOne "X" "X"; AOne "Body" "Body"]);
   ("ImportSpec", [AOne "Doc" "Doc"; AOne "Name" "Name"; AOne "Path" "Path"; AOne "Comment" "Comment"]);
   ("ValueSpec", [AOne "Doc" "Doc"; AMany "Names"; AOne "Type" "Type"; AMany "Values"; AOne "Comment" "Comment"]);
-  ("TypeSpec", [AOne "Doc" "Doc"; AOne "Name" "Name"; AOne "TypeParams" "TypeParams"; AOne "Type" "Type"; AOne "Comment" "Comment"]);
+  ("TypeSpec", [AOne "Doc" "Doc"; AOne "Name" "Name"; AOneG "TypeParams" "TypeParams"; AOne "Type" "Type"; AOne "Comment" "Comment"]);
   ("BadDecl", []);
   ("GenDecl", [AOne "Doc" "Doc"; AMany "Specs"]);
   ("FuncDecl", [AOne "Doc" "Doc"; AOne "Recv" "Recv"; AOne "Name" "Name"; AOne "Type" "Type"; AOne "Body" "Body"]);
